@@ -210,8 +210,22 @@ func subSelection(r *rand.Rand) []model.Sel {
 	return sels
 }
 
-func subRequestText(topic string, sels []model.Sel) string {
-	d := &model.Doc{Ops: []*model.Op{{Kind: "subscription", Name: "S", Sels: []model.Sel{&model.Field{Name: "listen", Args: []model.Arg{{Name: "topic", Value: topic}}, Sels: sels}}}}}
+func subRequestText(topic string, sels []model.Sel) string { return subRequestTextV(topic, sels, 0) }
+
+// subRequestTextV writes the subscription request; form 1 puts the root field inside an inline fragment, form 2 inside a
+// named fragment that is spread (defined after the operation), form 3 the same with the definition first.
+func subRequestTextV(topic string, sels []model.Sel, form int) string {
+	var root model.Sel = &model.Field{Name: "listen", Args: []model.Arg{{Name: "topic", Value: topic}}, Sels: sels}
+	d := &model.Doc{}
+	switch form {
+	case 1:
+		root = &model.Inline{Cond: "Subscription", Sels: []model.Sel{root}}
+	case 2, 3:
+		d.Frags = []*model.FragDef{{Name: "Root", Cond: "Subscription", Sels: []model.Sel{root}}}
+		d.FragsFirst = form == 3
+		root = &model.Spread{Name: "Root"}
+	}
+	d.Ops = []*model.Op{{Kind: "subscription", Name: "S", Sels: []model.Sel{root}}}
 	return d.Print(model.LayoutN(0))
 }
 
@@ -274,7 +288,11 @@ func runC19(c *run.Ctx) {
 				ro.mu.Lock()
 				ro.pending = h
 				ro.mu.Unlock()
-				text := subRequestText(topic, h.sels)
+				form := 0
+				if r.Intn(4) == 0 {
+					form = 1 + r.Intn(3)
+				}
+				text := subRequestTextV(topic, h.sels, form)
 				hist = append(hist, fmt.Sprintf("subscribe#%d topic=%s fail=%v %s", h.sid, topic, keysOfBool(h.failOn), strings.TrimSpace(text)))
 				var res map[string]interface{}
 				// a third of the subscription requests are made with a parsed executable that is kept and used again for the
